@@ -939,7 +939,7 @@ FSBASE = _os.path.join(_os.path.dirname(_os.path.dirname(_os.path.abspath(__file
 FSROOT = FSBASE + "/parent/root"
 PSEGS = ["in.txt", "sub", "deep.txt", ".", "..", "", "%2e", "%2E%2e", "%252e", "%252e%252e", "%2f", "%252f", "..%2f", "%2e%2e%2f", "rootx", "secret.txt",
          ":", "%3A", "%3a%2f", "%253A%252F", "res", "canary.txt",
-         "s.txt", "root", "parent", "nonexistent", "a&b<c>.txt", "a%26b%3Cc%3E.txt", ".hidden", "big.bin", "empty.txt", "..%00", "%00", "....", ". ."]
+         "s.txt", "root", "parent", "nonexistent", "caf%C3%A9%20%E4%B8%AD.txt", "caf%E9", "a&b<c>.txt", "a%26b%3Cc%3E.txt", ".hidden", "big.bin", "empty.txt", "..%00", "%00", "....", ". ."]
 
 
 def fs_events(req, turns=5):
@@ -997,7 +997,7 @@ def empty_range_requests():
 def gen_C08(rng, count, tier):
     # over real sockets: a client that half-closes right behind its request (files that fit in one copy block)
     yield ("tls", "plain halfclose root:%s" % hx(FSROOT.encode()))
-    files = [("in.txt", 40), ("sub/deep.txt", 31), ("big.bin", 70000), ("empty.txt", 0), ("edge.bin", 65536), ("a%26b%3Cc%3E.txt", 12)]
+    files = [("in.txt", 40), ("sub/deep.txt", 31), ("big.bin", 70000), ("empty.txt", 0), ("edge.bin", 65536), ("a%26b%3Cc%3E.txt", 12), ("sub/caf%C3%A9%20%E4%B8%AD.txt", 5)]
     # range sets without any element, in every run
     for req in empty_range_requests():
         yield ("fs", "root:%s %s" % (hx(FSROOT.encode()), fs_events(req)))
